@@ -102,7 +102,7 @@ func execC11(c CaseC11) *Outcome {
 	world.ResetHooks()
 	A := c.Authors
 	no := false
-	var openOn []int
+	openOn := []int{}
 	for i := 1; i < A; i++ {
 		openOn = append(openOn, i)
 	}
